@@ -25,7 +25,7 @@ def q(name, **over):
 QUICK = [
     ("ops2", q("ops2"), None), ("data", q("data"), None), ("select", q("select"), None), ("call", q("call"), None),
     ("foppre", q("foppre"), None), ("misc", q("misc"), None), ("cast", q("cast"), None), ("dotuse", q("dotuse"), None),
-    ("moddef", q("moddef"), None), ("conlet", q("conlet"), None), ("funcbody", q("funcbody"), None), ("moduse", q("moduse"), None),
+    ("moddef", q("moddef"), None), ("conlet", q("conlet"), None), ("funcbody", q("funcbody"), None), ("moduse", q("moduse"), None), ("fopbad", q("fopbad"), None),
     ("sim", q("sim", MaxStmts="5"), (3000, 80)),
 ]
 THOROUGH = QUICK[:-1] + [("sim", q("sim", MaxStmts="8"), (80000, 120))]
